@@ -692,8 +692,14 @@ static void rec_std(const char* name, size_t no, const octet* p, const octet* a,
 	word* G; word* d = WALLOC(n1); word* e = WALLOC(n1); word* qw = WALLOC(n1);
 	word* r1 = WALLOC(2 * n); word* r2 = WALLOC(2 * n); word* P = WALLOC(2 * n);
 	int t, ok1, ok2;
-	if (!curve_create(c, name, no, p, a, b) ||
-		!ecCreateGroup(c->ec, xG, yG, q, no, 1, stk(ecCreateGroup_deep(c->f->deep)))) { fprintf(stderr, "%s: cannot create\n", name); exit(4); }
+	if (!curve_create(c, name, no, p, a, b)) { fprintf(stderr, "%s: cannot create\n", name); exit(4); }
+	{	/* the group is set twice on the same description: first with a longer (wrong) order q + 2^(8 no), then with q -
+		   the description must then be exactly the one of a single ecCreateGroup (ec.h lets the group be set after the curve) */
+		octet* q2 = (octet*)xalloc(no + 1); memcpy(q2, q, no); q2[no] = 1;
+		ecCreateGroup(c->ec, xG, yG, q2, no + 1, 1, stk(ecCreateGroup_deep(c->f->deep)));
+		free(q2);
+	}
+	if (!ecCreateGroup(c->ec, xG, yG, q, no, 1, stk(ecCreateGroup_deep(c->f->deep)))) { fprintf(stderr, "%s: cannot create\n", name); exit(4); }
 	G = c->ec->base;
 	wwSetZero(qw, n1); wwFrom(qw, q, no);
 	rec_begin(c, "group"); jLimbs16("q", q, no); jP("P", c, G);
